@@ -185,6 +185,19 @@ theorem token_fresh_per_dial (spec : Spec) (pre : List Nat) (len : Nat) (s s' : 
   simp [takeStream, hk] at this
   exact hdiff this.symm
 
+/-- "… or absent", across dials: whatever specs were dialled before through the same caller `*Config`, the caller's
+    Config is unchanged, so a spec without token settings dials with exactly the caller's own token source — no
+    token at all when the caller configured none (the glue `UTransport.dial`: copy first, override the copy) -/
+theorem caller_config_untouched (user : UserConf) (specs : List Spec) : afterDials user specs = user := by
+  unfold afterDials
+  induction specs with
+  | nil => rfl
+  | cons sp rest ih => simpa [List.foldl, dialConf] using ih
+
+theorem token_absent_after_any_dials (specs : List Spec) (spec : Spec) (h : spec.token = .none) :
+    (dialConf (afterDials {} specs) spec).2.tokenStore = .none := by
+  rw [caller_config_untouched]; simp [dialConf, h]
+
 /-! ### 4. sizes -/
 
 /-- exact size, minimum padding, Length field arithmetic and varint-width consistency -/
@@ -441,6 +454,29 @@ theorem within_max_packet_size_partial (spec : Spec) (rf : RF) (plan : Plan) (hd
   simp only [] at *
   unfold rfPad dryLen
   rw [paddingReserve_eq, tagLen_eq] at *
+  omega
+
+/-- the CRYPTO budget never exceeds `maxSize - tag`, for EVERY `CryptoLength` and builder (the comparison in
+    `PackCoalescedPacket` is against `initialMaxSize`, not `maxSize`) -/
+theorem cryptoBudget_le (spec : Spec) (plan : Plan) (hdr off maxSize : Nat) :
+    cryptoBudget spec plan hdr off maxSize ≤ maxSize - tagLen := by
+  unfold cryptoBudget
+  simp only []
+  repeat' split
+  all_goals omega
+
+/-- hence the packet the packer itself budgets — header, the ONE popped CRYPTO frame, tag — fits the
+    connection's maximum packet size for every `CryptoLength` (also the ones just above a packet's capacity)
+    and every offset; only frames a builder adds on top can exceed it (the two known findings) -/
+theorem within_max_packet_size_popped (spec : Spec) (plan : Plan) (hdr off remaining maxSize : Nat)
+    (hmax : maxSize ≤ 16384) (hhdr : hdr ≤ cryptoBudget spec plan hdr off maxSize)
+    (hpos : 0 < popLen spec plan hdr off remaining maxSize) :
+    hdr + cryptoFrameLen off (popLen spec plan hdr off remaining maxSize) + tagLen ≤ maxSize := by
+  have hb := cryptoBudget_le spec plan hdr off maxSize
+  have hfit := maxDataLen_fits off (cryptoBudget spec plan hdr off maxSize - hdr)
+    (popLen spec plan hdr off remaining maxSize) (by unfold popLen; exact Nat.min_le_left _ _) hpos (by omega)
+  rw [tagLen_eq] at *
+  have hge : cryptoFrameLen off (popLen spec plan hdr off remaining maxSize) ≥ 1 := by unfold cryptoFrameLen; omega
   omega
 
 /-- full statement: no emitted Initial exceeds the connection's current maximum packet size (for a spec whose
